@@ -104,8 +104,10 @@ func (c *Ctx) Quick() bool { return c.Tier != "thorough" }
 
 // Logf prints a progress line to stderr.
 func Logf(format string, a ...any) {
-	fmt.Fprintf(os.Stderr, "[vcheck] "+format+"\n", a...)
+	fmt.Fprintf(os.Stderr, "[vcheck %6.1fs] "+format+"\n", append([]any{time.Since(procStart).Seconds()}, a...)...)
 }
+
+var procStart = time.Now()
 
 // Fatalf reports machinery trouble: exit 2, never a violation.
 func Fatalf(format string, a ...any) {
